@@ -65,7 +65,8 @@ class C19(Profile):
               'parse_unregistered_strict_refused', 'parse_unregistered_custom_mode_dict', 'version_scoped_negative',
               'custom_roundtrip', 'custom_new_version', 'custom_store_roundtrip', 'custom_marking_used', 'custom_extension_used',
               'either_name', 'extension_name_taken', 'toplevel_extension_used', 'two_toplevel_extensions_on_one_object',
-              'registered_toplevel_extension_next_to_unregistered']
+              'registered_toplevel_extension_next_to_unregistered', 'custom_instance_with_supplied_extension',
+              'supplied_extension_next_to_defining_extension']
     rule = ('plans: 20-60 ops: registrations through the four decorators of both spec versions with names from a pool of fresh, already '
             'taken (built-in, earlier in the run, other category) and rule-breaking names and with legal / rule-breaking property lists, the '
             'extension_name form; interleaved with parse (strict/custom mode, version named or not), class_for_type, construction, '
@@ -525,6 +526,25 @@ class C19(Profile):
                 raise Violation('custom-instances', 'C19.use/roundtrip/%s' % cat,
                                 dict(name=name, ver=ver, exc=repr(back.exc)[:200] if not back.ok else None, text=text[:300]))
             world.probe('custom_roundtrip')
+            if ver == '2.1' and op['a'] % 4 == 1:
+                # an instance that carries an extension of its own (an unregistered property extension, kept as given): a custom
+                # type keeps it like a built-in type does - also when the type adds its defining extension (extension_name=)
+                xid = 'extension-definition--' + C.mkuuid(op['a'] % 7, 'c19-supplied')
+                supplied = {xid: {'extension_type': 'property-extension', 'score': 7, 'tags': ['a']}}
+                o2 = call(lambda: cls(**dict(d, extensions=C._copy(supplied))))
+                if not o2.ok:
+                    raise Violation('custom-instances', 'C19.use/construct-with-extension-refused/%s' % type(o2.exc).__name__,
+                                    dict(name=name, exc=repr(o2.exc)[:300]))
+                j2 = json.loads(o2.value.serialize())
+                if j2.get('extensions', {}).get(xid) != supplied[xid]:
+                    raise Violation('custom-instances', 'C19.use/supplied-extension-lost',
+                                    dict(name=name, cat=cat, extensions=sorted(j2.get('extensions', {})), defining=getattr(cls, 'with_extension', None)))
+                back2 = call(s.parse, o2.value.serialize())
+                if not back2.ok or back2.value != o2.value:
+                    raise Violation('custom-instances', 'C19.use/roundtrip/%s' % cat, dict(name=name, ver=ver, with_extension=True))
+                world.probe('custom_instance_with_supplied_extension')
+                if getattr(cls, 'with_extension', None):
+                    world.probe('supplied_extension_next_to_defining_extension')
             if cat == 'objects':
                 old = tsparse.us_of(json.loads(text)['modified'])
                 world.clock.set(old + [-1000000, 0, 1, 999, 1000, 1000000][op['a'] % 6])
